@@ -104,7 +104,8 @@ func genHistory15(src *choice.Src, cfg *gen.Cfg) []Op {
 			}
 		case "OvSvc":
 			marker++
-			ops = append(ops, Op{Kind: "OvSvc", Name: cfg.Services[src.Draw("s", len(cfg.Services))].Name, VI: marker})
+			ops = append(ops, Op{Kind: "OvSvc", Name: cfg.Services[src.Draw("s", len(cfg.Services))].Name, VI: marker,
+				Scope: choice.Pick(src, "ovscope", []string{"", "", "", "contextual", "contextual", "non_shared", "shared"})})
 		case "Env":
 			ops = append(ops, envOp())
 		case "Arm":
@@ -250,7 +251,7 @@ func judge15(e *Entry, ops []Op, res []*OpResult, evs [][]sched.Event) (sig, det
 			}
 			stats["overrides"]++
 		case "OvSvc":
-			m.overrideService(op.Name, op.VI)
+			m.overrideService(op.Name, op.VI, op.Scope)
 			stats["overrides"]++
 		case "GetParam":
 			v, taint, err := m.param(op.Name)
@@ -290,6 +291,7 @@ func judge15(e *Entry, ops []Op, res []*OpResult, evs [][]sched.Event) (sig, det
 			}
 			stats["values-checked"]++
 		case "Get", "Getter":
+			m.beginTree()
 			n, taint, err := m.service(op.Name)
 			if taint {
 				stats["not-judged-(constructed-before-an-override)"]++
@@ -386,6 +388,7 @@ var enumAlphabet15 = []Op{
 	{Kind: "Get", Name: "s1"}, {Kind: "Get", Name: "s2"}, {Kind: "Get", Name: "s3"},
 	{Kind: "OvParam", Name: "p1", VKind: "value", V: "real"}, {Kind: "OvParam", Name: "p1", VKind: "param", V: "p3"},
 	{Kind: "OvParam", Name: "p3", VKind: "provider", VI: 42}, {Kind: "OvSvc", Name: "s1", VI: 500},
+	{Kind: "OvSvc", Name: "s1", VI: 600, Scope: "contextual"},
 }
 
 // EnumCount15 is the number of histories of length 1..4 over the alphabet.
